@@ -190,10 +190,24 @@ def run(chk):
     for cname in ("SymmetricOptimizer", "AffineOptimizer"):
         ci = repo.cls(cname)
         call = ci.own("__call__")
-        asserts = [U(a.test) for a in ast.walk(call) if isinstance(a, ast.Assert)]
         bname = positional_params(call)[1]
-        chk.require("C03.R4", f"{ci.mod.rel}:{call.lineno}", f"scale.dtype == {bname}.dtype" in asserts, f"{cname}.__call__ asserts scale.dtype == base.dtype ({asserts})", f"{cname}.__call__", "scale dtype post-condition", "float16 weights: a float32 scale makes the quantized tensor report another dtype")
         rets = [p for p in paths_of(call) if p.end[0] == "return"]
+        # post-condition on every return path (the assert may sit in a private helper: the path engine inlines it)
+        ok_post, asserts = bool(rets), []
+        for p in rets:
+            e = p.end[1]
+            sc_e = e.elts[0] if isinstance(e, ast.Tuple) and e.elts else e
+            here = [ef[1] for ef in p.effects if ef[0] == "assert"]
+            asserts = [U(a) for a in here]
+            found = False
+            for a in here:
+                if isinstance(a, ast.Compare) and len(a.ops) == 1 and isinstance(a.ops[0], ast.Eq):
+                    l, r = U(a.left), U(a.comparators[0])
+                    for x, y in ((l, r), (r, l)):
+                        if x == f"{U(sc_e)}.dtype" and y.endswith(".dtype") and bname in y:
+                            found = True
+            ok_post = ok_post and found
+        chk.require("C03.R4", f"{ci.mod.rel}:{call.lineno}", ok_post, f"{cname}.__call__ asserts scale.dtype == base.dtype on every return path ({asserts})", f"{cname}.__call__", "scale dtype post-condition", "float16 weights: a float32 scale makes the quantized tensor report another dtype")
         for p in rets:
             e = p.end[1]
             txt = U(e)
@@ -225,9 +239,10 @@ def run(chk):
         chk.require("C03.R5", site, bool(ok), f"quantize_weight (low-bit): optimizer and quantizer receive the same tensor, axis and group size: `{U(e)[:120]}`", "quantize_weight", "optimizer/quantizer agreement", "int2/int4 weights: scales computed for other groups than the ones quantized")
     # grouping condition in the quantizer
     aq = repo.cls("AffineQuantizer").own("forward")
-    grp_calls = [U(n) for n in ast.walk(aq) if isinstance(n, ast.Call) and U(n.func) == "group"]
+    from ..core import path_calls
+    grp_calls = [U(n) for n in path_calls(aq, "group")]
     ao = repo.cls("AffineOptimizer").own("__call__")
-    grp_calls2 = [U(n) for n in ast.walk(ao) if isinstance(n, ast.Call) and U(n.func) == "group"]
+    grp_calls2 = [U(n) for n in path_calls(ao, "group")]
     norm = lambda s_: s_.replace("axis=", "").replace("group_size=", "")
     chk.require("C03.R5", f"{repo.cls('AffineQuantizer').mod.rel}:{aq.lineno}", len(grp_calls) == 1 and len(grp_calls2) == 1 and norm(grp_calls[0]) == norm(grp_calls2[0]), f"quantizer groups with `{grp_calls}`, optimizer wrapper with `{grp_calls2}`", "AffineQuantizer.forward", "same grouping call", "grouped weights: scale layout and code layout disagree")
     # ---------------- R6
